@@ -32,7 +32,7 @@ MANIFEST = {
  "text": "all fault positions of each generated problem are enumerated (up to 25 per site, spread beyond); problem data and fault sequences are sampled",
 }
 
-PROBLEMS = ["lp", "qp-slsqp", "nlp-trust", "lbfgsb", "qp-in-recursion-block"]
+PROBLEMS = ["lp", "qp-slsqp", "nlp-trust", "lbfgsb", "qp-in-recursion-block", "deep-sum"]
 SITES = ["entry", "fun", "jac", "hess", "cfun", "cjac", "compile_expression", "compile_jacobian", "compile_hessian"]
 EXCS = {"ValueError": ValueError, "FloatingPointError": FloatingPointError, "MemoryError": MemoryError,
         "KeyboardInterrupt": KeyboardInterrupt}
@@ -41,6 +41,8 @@ EXCS = {"ValueError": ValueError, "FloatingPointError": FloatingPointError, "Mem
 def applicable(problem, site):
     if problem == "lp":
         return site == "entry"
+    if problem == "deep-sum":
+        return site in ("entry", "fun", "jac")
     if site == "hess" or site == "compile_hessian":
         return problem == "nlp-trust"
     if site in ("cfun", "cjac"):
@@ -82,6 +84,13 @@ def make_problem(case):
     if kind == "nlp-trust":
         P = Problem().minimize(exp(x) + exp(-x) + (y - b) ** 4 + 0.5 * x * y).subject_to(x ** 2 + y ** 2 <= 4 + c)
         return P, "trust-constr"
+    if kind == "deep-sum":
+        # objective accumulated term by term beyond the depth at which optyx switches algorithms
+        w = VectorVariable("w", 5, lb=-3, ub=3)
+        obj = (w[0] - a) ** 2
+        for i in range(1, 430):
+            obj = obj + (w[i % 5] - 0.01 * i) ** 2
+        return Problem().minimize(obj), "L-BFGS-B"
     v = VectorVariable("v", 3, lb=-2, ub=2)
     P = Problem().minimize((v[0] - a) ** 2 + (v[1] - b) ** 2 + c * v[2] ** 2 + cosh(v[0]))
     return P, "L-BFGS-B"
